@@ -7,5 +7,5 @@ Alpha7 == {97, 98, 32, 58, 39, 34, 92}
 \* default (white space), ":" and ": "
 Delims3 == {<<>>, <<58>>, <<58, 32>>}
 ObsEmit(op, args, ret, post) ==
-    PrintT(ToJson([d |-> args[1], s |-> args[2]] @@ Expected(args[1], args[2], ret)))
+    PrintT(ToJson([d |-> args[1], s |-> args[2], lv |-> DebugLevels] @@ Expected(args[1], args[2], ret)))
 ================================================================================
